@@ -296,7 +296,7 @@ def py_equal(interp, a, b, node):
             r = cmp_scalar(interp, "eq", a, b, node)
             if isinstance(r, bool):
                 return r
-            interp.event("symbolic-equality-in-container", node, str(r))
+            interp.event("symbolic-equality-in-container", node, str(r), obj=r if isinstance(r, Poly) else None)
             return False
         return False
     if isinstance(a, Tens) or isinstance(b, Tens):
@@ -1121,6 +1121,26 @@ def _array(it, a, k, node):
     return _arr(a[0])
 
 
+@reg("jnp.ndim")
+def _ndim(it, a, k, node):
+    x = a[0]
+    if isinstance(x, Tens):
+        return x.ndim
+    if isinstance(x, (list, tuple)):
+        return as_tens(x).ndim
+    return 0
+
+
+@reg("jnp.shape")
+def _shape_fn(it, a, k, node):
+    x = a[0]
+    if isinstance(x, Tens):
+        return tuple(x.shape)
+    if isinstance(x, (list, tuple)):
+        return tuple(as_tens(x).shape)
+    return ()
+
+
 @reg("jnp.diag")
 def _diag(it, a, k, node):
     t = _arr(a[0])
@@ -1647,7 +1667,7 @@ def call_builtin(interp, name, args, kwargs, node):
                 return bool(x)
             return Fr(x) if name == "float" else x
         if isinstance(x, (Poly, Tens)):
-            interp.event("coerce-array-to-python", node, name)
+            interp.event("coerce-array-to-python", node, name, obj=x if isinstance(x, Poly) else (x.data[0] if x.data else None))
             if name == "bool":
                 return interp.truth(x, node)
             if isinstance(x, Tens):
@@ -1707,7 +1727,7 @@ def _isinstance(interp, x, cls, node):
             if isinstance(x, Fr):
                 return True
             if isinstance(x, Poly):
-                interp.event("isinstance-float-on-symbolic", node, str(x))
+                interp.event("isinstance-float-on-symbolic", node, str(x), obj=x)
                 return True
             return False
         if n == "int":
